@@ -65,14 +65,35 @@ def strip_lean_comments(src):
     return ''.join(out)
 
 
-def source_scan():
-    """forbidden constructs anywhere in the Lean development (comments stripped)"""
+def import_closure(modules):
+    """files of the BridgeVerif modules transitively imported by `modules`"""
+    seen, todo = set(), list(modules)
+    while todo:
+        m = todo.pop()
+        if m in seen or not m.startswith('BridgeVerif'):
+            continue
+        seen.add(m)
+        p = os.path.join(LEAN, *m.split('.')) + '.lean'
+        if os.path.exists(p):
+            for imp in re.findall(r'^import\s+(\S+)', open(p).read(), re.M):
+                todo.append(imp)
+    return sorted(os.path.join(LEAN, *m.split('.')) + '.lean' for m in seen)
+
+
+def source_scan(modules=None):
+    """forbidden constructs in the Lean sources the property depends on (comments stripped);
+    the driver sources are always included"""
     hits = []
-    for root, dirs, files in os.walk(LEAN):
-        dirs[:] = [d for d in dirs if d != '.lake']
-        for f in files:
-            if f.endswith('.lean'):
-                p = os.path.join(root, f)
+    if modules is None:
+        files_ = []
+        for root, dirs, files in os.walk(LEAN):
+            dirs[:] = [d for d in dirs if d != '.lake']
+            files_ += [os.path.join(root, f) for f in files if f.endswith('.lean')]
+    else:
+        files_ = import_closure(list(modules) + ['BridgeVerif.Driver.Main'])
+    for p in files_:
+        if True:
+            if os.path.exists(p):
                 src = strip_lean_comments(open(p).read())
                 for m in FORBIDDEN.finditer(src):
                     line = src.count('\n', 0, m.start()) + 1
